@@ -1,6 +1,7 @@
 //! bpharness — correspondence harness for the Coq model of ark-bulletproofs.
 //! Built against /repo's working tree with --cfg ark_bulletproofs_verif and the instrumented Merlin.
 mod ast;
+mod comp_ipp;
 mod comp_lc;
 mod comp_r1cs;
 mod gen;
@@ -83,6 +84,18 @@ fn gen_lc_curve<G: AffineRepr>(curve: &str, ci: u64, seed: u64, tier: &str, sink
     }
 }
 
+fn gen_ipp_curve<G: AffineRepr>(curve: &str, ci: u64, seed: u64, tier: &str, sink: &mut Sink) {
+    let modulus = modulus_of::<G>();
+    for o in comp_ipp::gen_and_run::<G>(curve, ci, &modulus, seed, tier) {
+        let sh = sink.next % sink.shards.len();
+        sink.next += 1;
+        sink.shards[sh].push_str(&o.coq);
+        sink.order.push((sh, o.id.clone()));
+        sink.impl_obs.push_str(&o.obs);
+        sink.summary.push_str(&o.summary);
+    }
+}
+
 fn cmd_gen(args: &[String]) {
     let comp = args.get(0).expect("component").clone();
     let seed: u64 = arg(args, "--seed", "1").parse().unwrap();
@@ -109,6 +122,14 @@ fn cmd_gen(args: &[String]) {
                 with_curve!(*curve, gen_r1cs_curve, curve, ci as u64, seed, &tier, &streams, &mut sink);
             }
         }
+        "ipp" => {
+            for (ci, curve) in CURVES.iter().enumerate() {
+                if !curves_s.split(',').any(|c| c == *curve) {
+                    continue;
+                }
+                with_curve!(*curve, gen_ipp_curve, curve, ci as u64, seed, &tier, &mut sink);
+            }
+        }
         "lc" => {
             for (ci, curve) in CURVES.iter().enumerate() {
                 if !curves_s.split(',').any(|c| c == *curve) {
@@ -121,6 +142,7 @@ fn cmd_gen(args: &[String]) {
     }
     let header = match comp.as_str() {
         "r1cs" => "Require Import BP.Run.R1cs.\nSet Printing Width 2000000000.\nSet Printing Depth 2000000000.\n",
+        "ipp" => "Require Import BP.Run.Ipp.\nSet Printing Width 2000000000.\nSet Printing Depth 2000000000.\n",
         "lc" => "Require Import BP.Run.Lc.\nSet Printing Width 2000000000.\nSet Printing Depth 2000000000.\n",
         _ => "",
     };
